@@ -282,8 +282,14 @@ def lookahead(rep, tier, seed):
         cut = bd[cut_i]
         tend = D(bd[cut_i - tend_off])
         X, Y, rate = tables(p)
+        # a feature that starts late: leading gap, first value dated after the cut
+        late = [float("nan") if d <= bd[cut_i + 2] else 0.5 + (d % 7) / 10.0 for d in sorted(p["dx"])]
+        if tr != "yeo-johnson":      # a power transformer cannot be fitted on a column that is empty up to transformer_end
+            X["f2"] = late
         X2, Y2 = X.copy(), Y.copy()
         after = X2.index > D(cut)
+        if "f2" in X2.columns:
+            X2.loc[X2.index > D(bd[cut_i + 2]), "f2"] = -1.25
         X2.loc[after, "f0"] = X2.loc[after, "f0"] * -1.5 + 0.7
         X2.loc[after, "f1"] = 1.9
         aftery = Y2.index > D(cut)
